@@ -306,6 +306,19 @@ func recCells(roles, amevs, reqs []int) []cellSpec {
 		if ex["rpc"] == 1 {
 			am = []int{1}
 		}
+		if ex["rreq"] == 1 && quickTier {
+			// the anti-MEV recovery message with an embedded proposal is one 7-minute job: thorough only
+			// (the anti-MEV proposal path itself is covered by the direct PrepareRequest cells)
+			am = nil
+			for _, a := range amevs {
+				if a == 0 {
+					am = append(am, a)
+				}
+			}
+			if len(am) == 0 {
+				continue
+			}
+		}
 		cs = append(cs, cellSpec{roles: roles, amevs: am, reqs: reqs, apis: []int{apiRecoveryMessage}, extra: ex})
 	}
 	return cs
